@@ -268,49 +268,42 @@ def rule_file_tags(ctx: Ctx, rule: str = "file-tags") -> None:
     """The type tags the writer emits are exactly those the reader dispatches on, and for each tag the reader calls
     the inverse of the writer; entry keys name/type/data agree."""
     prog = ctx.prog
+    from .rules_exc import reader_dispatch, with_new_helpers, written_tags
+
     w = prog.func("fileio.write_contracts_to_file")
     r = prog.func("fileio.read_contracts_from_file")
-    written: Dict[str, str] = {}  # tag -> writer method
-    # walk the writer: entry["type"] = TAG ; entry["data"] = c.<writer>()
-    def collect(stmts: List[ast.stmt], tag: Optional[str]) -> None:
-        cur = tag
-        for st in stmts:
-            if isinstance(st, ast.Assign) and isinstance(st.targets[0], ast.Subscript) and isinstance(st.targets[0].slice, ast.Constant):
-                k = st.targets[0].slice.value
-                if k == "type" and isinstance(st.value, ast.Constant):
-                    cur = st.value.value
-                if k == "data" and cur is not None and isinstance(st.value, ast.Call) and isinstance(st.value.func, ast.Attribute):
-                    written[cur] = st.value.func.attr
-            for f in ("body", "orelse"):
-                if hasattr(st, f) and isinstance(getattr(st, f), list):
-                    collect(getattr(st, f), cur)
-
-    collect(w.body, None)
-    read: Dict[str, str] = {}
-    from .rules_exc import with_new_helpers
-
+    written = written_tags(prog)
     r_roots = with_new_helpers(prog, r)
-    flrs = [Flow(root) for root in r_roots]
-
-    def is_type_field(e: ast.AST) -> bool:
-        if norm(e).endswith("['type']"):
-            return True
-        if isinstance(e, ast.Name):
-            return any(norm(d).endswith("['type']") for fl_ in flrs for d in fl_.defs.get(e.id, []))
-        return False
-
-    for node in (x for root in r_roots for x in ast.walk(root)):
-        if isinstance(node, ast.If) and isinstance(node.test, ast.Compare) and isinstance(node.test.comparators[0], ast.Constant) and is_type_field(node.test.left):
-            tag = node.test.comparators[0].value
-            for st in node.body:
-                for c in ast.walk(st):
-                    if isinstance(c, ast.Call) and isinstance(c.func, ast.Attribute) and c.func.attr in ("from_dict", "from_strings"):
-                        read[tag] = "%s.%s" % (norm(c.func.value), c.func.attr)
+    # what the reader does with an entry of each written tag (simulated on a well-formed one-entry document)
+    read: Dict[str, str] = {}
+    refused: Dict[str, str] = {}
+    for tag in sorted(written):
+        try:
+            paths = reader_dispatch(prog, tag)
+        except AnalysisError as ex:
+            ctx.cannot_decide(rule, r.key, "tag %s: what the reader does with it" % tag, str(ex))
+            continue
+        for term, cls, names, _evs in paths:
+            made = [c for c in names if c.endswith(".from_dict") or c.endswith(".from_strings")]
+            if term == "return" and len(made) == 1:
+                read.setdefault(tag, made[0].lstrip("."))
+                if read[tag] != made[0].lstrip("."):
+                    read[tag] = "%s or %s" % (read[tag], made[0].lstrip("."))
+            else:
+                refused[tag] = "raises %s" % cls if term != "return" else "returns after %d constructions" % len(made)
     construct = "type tags written = type tags read"
-    if set(written) == set(read) and written:
+    if written and set(read) == set(written) and not refused:
         ctx.ok(rule, w.key, construct + ": %s" % sorted(written))
     else:
-        ctx.violation(rule, w.key, construct, "written %s, read %s" % (sorted(written), sorted(read)), where=w.where)
+        ctx.violation(rule, w.key, construct, "written %s, read %s%s" % (sorted(written), sorted(read), "; the reader %s" % "; ".join("%s on %s" % (v, k) for k, v in sorted(refused.items())) if refused else ""), where=w.where)
+    # a tag nobody writes is refused, not mistaken for one of the known kinds
+    construct = "an entry of an unknown type is refused"
+    try:
+        paths = reader_dispatch(prog, "<some other tag>")
+        okr = bool(paths) and all(term != "return" for term, _c, _n, _e in paths)
+        (ctx.ok(rule, r.key, construct) if okr else ctx.violation(rule, r.key, construct, "an entry whose type is none of %s is accepted (%s)" % (sorted(written), [n for t, _c, n, _e in paths if t == "return"][0][-3:]), where=r.where))
+    except AnalysisError as ex:
+        ctx.cannot_decide(rule, r.key, construct, str(ex))
     inverse = {"to_machine_dict": "from_dict", "to_dict": "from_strings"}
     for tag in sorted(set(written) & set(read)):
         construct = "tag %s: the reader applies the inverse of the writer" % tag
@@ -321,7 +314,12 @@ def rule_file_tags(ctx: Ctx, rule: str = "file-tags") -> None:
         else:
             ctx.violation(rule, r.key, construct, "written with %s, read with %s" % (wr, rd), where=r.where)
     wk = {k for b, k, v in _subscript_store_keys(w.node)}
-    rk = {k for root in r_roots for b, k in _subscript_read_keys(root)}
+    from .rules_exc import reader_key_discipline
+
+    try:
+        rk = set(reader_key_discipline(prog)[0])
+    except AnalysisError:
+        rk = {k for root in r_roots for b, k in _subscript_read_keys(root)}
     construct = "entry keys written = entry keys read"
     (ctx.ok(rule, w.key, construct + ": %s" % sorted(wk)) if wk == rk and wk else ctx.violation(rule, w.key, construct, "written %s, read %s" % (sorted(wk), sorted(rk)), where=w.where))
 
